@@ -20,6 +20,7 @@ from .values import str_distinct_axioms, theory_axioms, str_lit_table
 
 NATIVE_PY = os.environ.get("VERIF_NATIVE_PY", "/venv/bin/python")
 KNOWN_FILE = os.path.join(VERIF_ROOT, "KNOWN_FINDINGS.txt")
+OUT_ROOT = os.environ.get("VERIF_OUT", VERIF_ROOT)  # evidence/ and replays/ (redirected by tools/selftest.py)
 
 
 def load_known(prop):
@@ -203,9 +204,9 @@ class Session:
             o.verdict["known"] = entry["key"]
 
     def report_violation(self, o: Obligation):
-        os.makedirs(os.path.join(VERIF_ROOT, "replays"), exist_ok=True)
+        os.makedirs(os.path.join(OUT_ROOT, "replays"), exist_ok=True)
         safe = "".join(ch if ch.isalnum() or ch in "-_." else "_" for ch in o.id)
-        path = os.path.join(VERIF_ROOT, "replays", f"{safe}.json")
+        path = os.path.join(OUT_ROOT, "replays", f"{safe}.json")
         rec = dict(property=self.prop, obligation=o.id, kind=o.kind, meta=o.meta, solver=o.verdict,
                    smt2=o.smt2()[:20000])
         model = self.shrunk_model(o)
@@ -262,7 +263,7 @@ class Session:
     # ------------------------------------------------------------------ bounded stand-ins (native)
     def standin(self, module, name=None, extra_args=()):
         """Run /verif/bounded/<module>.py under the repo's interpreter; it prints one JSON object."""
-        out_path = os.path.join(VERIF_ROOT, "replays", f".standin_{self.prop}_{module}.json")
+        out_path = os.path.join(OUT_ROOT, "replays", f".standin_{self.prop}_{module}.json")
         os.makedirs(os.path.dirname(out_path), exist_ok=True)
         cmd = [NATIVE_PY, "-m", f"bounded.{module}", "--tier", self.tier, "--seed", str(self.seed), "--out", out_path,
                *extra_args]
@@ -287,9 +288,9 @@ class Session:
             if entry is not None:
                 self.note_known(entry)
                 continue
-            os.makedirs(os.path.join(VERIF_ROOT, "replays"), exist_ok=True)
+            os.makedirs(os.path.join(OUT_ROOT, "replays"), exist_ok=True)
             safe = "".join(ch if ch.isalnum() or ch in "-_." else "_" for ch in fail["key"])[:150]
-            path = os.path.join(VERIF_ROOT, "replays", f"{self.prop}_standin_{safe}.json")
+            path = os.path.join(OUT_ROOT, "replays", f"{self.prop}_standin_{safe}.json")
             with open(path, "w") as f:
                 json.dump(dict(property=self.prop, standin=module, case=fail), f, indent=1, default=str)
             print(f"VIOLATION property={self.prop} replay={path}", flush=True)
@@ -359,8 +360,8 @@ class Session:
                   assumptions=self.assumptions, wall_s=round(wall, 2), violations=len(self.violations))
         if self.errors:
             ev["errors"] = self.errors
-        os.makedirs(os.path.join(VERIF_ROOT, "evidence"), exist_ok=True)
-        with open(os.path.join(VERIF_ROOT, "evidence", f"{self.prop}.json"), "w") as f:
+        os.makedirs(os.path.join(OUT_ROOT, "evidence"), exist_ok=True)
+        with open(os.path.join(OUT_ROOT, "evidence", f"{self.prop}.json"), "w") as f:
             json.dump(ev, f, indent=1, default=str)
         print(f"{self.prop} [{self.tier}] obligations={n} discharged={discharged} covers={cov['covers_reached']}/{cov['covers']} "
               f"canaries={cov['canaries_refuted']}/{cov['canaries']} standins={[(s['name'], s.get('evaluations')) for s in self.standins]} "
